@@ -1442,31 +1442,30 @@ class BADS:
 
         # Re-evaluate all best points for noisy evaluations
         yval_vec = self.yval if np.isscalar(self.yval) else self.yval.copy()
-        if (
-            self.optim_state["uncertainty_handling_level"] > 0
-            and poll_iteration > 0
-        ):
-            self._re_evaluate_history_(gp)
+        if self.optim_state["uncertainty_handling_level"] > 0:
+            # The selection among past iterates needs at least two recorded iterations
+            if poll_iteration > 0:
+                self._re_evaluate_history_(gp)
 
-            # Order by lowest probabilistic upper bound and choose
-            # the point with the lowest quantile values of the history of the optimization run: inf{x: F(x)>p}.
-            sigma_multiplier = np.sqrt(2) * erfcinv(
-                2 * self.options["final_quantile"]
-            )  # Using inverted convention
-            q_beta = self.iteration_history.get(
-                "fval"
-            ) + sigma_multiplier * self.iteration_history.get("fsd")
-            min_q_beta_idx = np.argmin(q_beta[1:])  # Skip first iteration
-            min_q_beta_idx += 1  # offset original index with no skip
-            self.yval = self.iteration_history.get("yval")[min_q_beta_idx]
-            self.fval = self.iteration_history.get("fval")[min_q_beta_idx]
-            self.fsd = self.iteration_history.get("fsd")[min_q_beta_idx]
-            self.u = self.iteration_history.get("u")[min_q_beta_idx]
-            self.u_best = self.u.copy()
-            self.best_gp_hyp = self.iteration_history.get("gp_hyp_full")[
-                min_q_beta_idx
-            ]
-            gp = self.iteration_history.get("gp")[min_q_beta_idx]
+                # Order by lowest probabilistic upper bound and choose
+                # the point with the lowest quantile values of the history of the optimization run: inf{x: F(x)>p}.
+                sigma_multiplier = np.sqrt(2) * erfcinv(
+                    2 * self.options["final_quantile"]
+                )  # Using inverted convention
+                q_beta = self.iteration_history.get(
+                    "fval"
+                ) + sigma_multiplier * self.iteration_history.get("fsd")
+                min_q_beta_idx = np.argmin(q_beta[1:])  # Skip first iteration
+                min_q_beta_idx += 1  # offset original index with no skip
+                self.yval = self.iteration_history.get("yval")[min_q_beta_idx]
+                self.fval = self.iteration_history.get("fval")[min_q_beta_idx]
+                self.fsd = self.iteration_history.get("fsd")[min_q_beta_idx]
+                self.u = self.iteration_history.get("u")[min_q_beta_idx]
+                self.u_best = self.u.copy()
+                self.best_gp_hyp = self.iteration_history.get("gp_hyp_full")[
+                    min_q_beta_idx
+                ]
+                gp = self.iteration_history.get("gp")[min_q_beta_idx]
 
             # Re-evalate estimated function value and SD at final point
             if self.options["noise_final_samples"] > 0:
